@@ -26,7 +26,7 @@ import subprocess
 import sys
 from pathlib import Path
 
-from .c19_shapes import DOC_KINDS, classify, has_title, materialise
+from .c19_shapes import DOC_KINDS, N_VARIANTS, classify, has_title, materialise
 from .common import PY, REPO, Run, main_wrapper, make_pool, pmap, repo_env
 from .tlc import Scratch, run_tlc, write_cfg
 
@@ -79,7 +79,7 @@ def replay_shape(case):
         probe.reset()
         global_parameters.evaluate = True
         try:
-            members, _functions = find_members_and_functions(patch_sympy_evaluate(ast.parse(src)))
+            members, functions = find_members_and_functions(patch_sympy_evaluate(ast.parse(src)))
         except Exception as e:  # pylint: disable=broad-except
             problems.append(f"v{variant}: generation raised {type(e).__name__}: {e}")
             global_parameters.evaluate = True
@@ -100,6 +100,9 @@ def replay_shape(case):
         for i in range(1, req + 1):
             if exp[i - 1] != "none" and i not in idx:
                 problems.append(f"v{variant}: statement {i} ({kinds[i - 1]}) precedes a documented member but was not executed")
+        want_f = [f"f{i}" for i, k in enumerate(kinds, start=1) if k == "def_doc"]
+        if [f.name for f in functions] != want_f:
+            problems.append(f"v{variant}: documented functions reported {[f.name for f in functions]}, the shape has {want_f}")
         by_name = {m.name: m for m in members}
         for i, is_member in enumerate(dm, start=1):
             if not is_member:
@@ -135,10 +138,10 @@ def patch_layer(run: Run, sc: Path, t: dict, pool, tier: str) -> None:
     run.add_tlc(res2, f"patch/flag layer emission: every module shape up to {cfgd['MaxStmts']} statements over "
                       f"{len(cfgd['StmtKinds'])} kinds with the declarative expectation Exp (+ RegularShapesDecided, EvalMembersOn)")
     cases = res2.printed
-    if tier == "thorough":
-        for c in cases:
-            if len(c["m"]) <= 5:
-                c["variants"] = (0, 1)
+    import zlib
+    for c in cases:
+        # every signature form / spelling for the short shapes, one rotating form for the long ones
+        c["variants"] = tuple(range(N_VARIANTS)) if len(c["m"]) <= 5 else (zlib.crc32(" ".join(c["m"]).encode()) % N_VARIANTS,)
     run.coverage.setdefault("module_shapes_emitted", {})[label] = len(cases)
     free = 0
     for case, problems in pmap(pool, replay_shape, cases, chunk=500):
@@ -160,6 +163,11 @@ def patch_layer(run: Run, sc: Path, t: dict, pool, tier: str) -> None:
 DOC_INIT = '"""\nPackage {name}\n{ul}\n\nDescription of {name}.\n"""\n'
 LAW_DOC = ('"""\nLaw {name}\n{ul}\n\nDescription of {name}.\n"""\n\nfrom sympy import Symbol, Add\n\n'
            'x = Symbol("x")\n"""\nA symbol.\n"""\n\nlaw = Add(x, x)\n"""\n:laws:symbol::\n\n:laws:latex::\n"""\n\n'
+           'def calculate_pair(first: "Symbol", second: tuple[int, int] = (1, 2), *rest: int, flag: bool = False,\n'
+           '    **options: object) -> tuple[int, int]:\n    """\n    Returns a pair.\n    """\n    return second\n\n\n'
+           '@__import__("functools").lru_cache(maxsize=None)\n'
+           'def calculate_optional(value: int | None = None) -> __import__("typing").Optional[int]:\n'
+           '    """Returns the value."""\n    return value\n\n\n'
            'unrelated = x * x * 0\n')
 _WORK = {}
 
@@ -291,6 +299,8 @@ def replay_tree(case):
             text = (work / "out" / (_stem(case, names, i) + ".rst")).read_text()
             if ":code:`x + x`" not in text or ":laws:" in text:
                 problems.append(f"law page {_stem(case, names, i)} does not show the formula as written")
+            if ".. py:function:: calculate_pair(" not in text or ".. py:function:: calculate_optional(" not in text:
+                problems.append(f"law page {_stem(case, names, i)} does not list the module's documented functions")
     return case, problems
 
 
